@@ -2098,8 +2098,19 @@ impl<Config: endpoint::Config> connection::Trait for ConnectionImpl<Config> {
             return Err(ProcessingError::Other);
         }
 
-        let initial_cid = InitialId::try_from_bytes(path.peer_connection_id.as_ref())
-            .expect("initial ID length already validated locally");
+        let Some(initial_cid) = InitialId::try_from_bytes(path.peer_connection_id.as_ref()) else {
+            // The peer connection ID is only shorter than an initial ID if it has already been
+            // replaced by a connection ID chosen by the server, which means an Initial packet
+            // from the server has been received before (even if it could not be processed
+            // successfully), so the Retry packet needs to be discarded.
+            publisher.on_packet_dropped(event::builder::PacketDropped {
+                reason: event::builder::PacketDropReason::RetryDiscarded {
+                    reason: event::builder::RetryDiscardReason::InitialAlreadyProcessed,
+                    path: path_event!(path, path_id),
+                },
+            });
+            return Ok(());
+        };
 
         //= https://www.rfc-editor.org/rfc/rfc9001#section-5.8
         //# Retry packets (see Section 17.2.5 of [QUIC-TRANSPORT]) carry a Retry
